@@ -2,7 +2,6 @@ package props
 
 import (
 	"fmt"
-	"go/ast"
 	"strings"
 
 	"mgcheck/core"
@@ -12,7 +11,7 @@ import (
 func init() { register("C14", checkC14) }
 
 const (
-	rC14Disp = "TABLE.operator-dispatch"
+	rC14Disp = "ORDABS.operator-dispatch"
 	rC14Op   = "ORDABS.operator-window"
 	rC14Bind = "ORDABS.interval-binding"
 	rC14Head = "ORDABS.head-time"
@@ -22,7 +21,7 @@ const (
 )
 
 func checkC14(c *core.Ctx) {
-	c.Rule(rC14Disp, "EvalTemporalLiteral sends each TemporalOperatorType to the evaluator of the same name and rejects unknown kinds with an error", 5)
+	c.Rule(rC14Disp, "EvalTemporalLiteral, read from source and evaluated with the five evaluators replaced by recorders: each operator kind is answered by the evaluator of that kind, which receives the operator window and the literal's annotation; a literal without operator goes to the plain lookup; an unknown kind is an error", 6)
 	c.Rule(rC14Op, "each operator evaluator, read from source and evaluated against a stub store that answers GetFactsDuring by closed-interval overlap and GetAllFacts by everything, over all small windows [d1<=d2], evaluation time 10 and fact intervals (finite, left-/right-unbounded): a diamond yields exactly the facts that hold at some instant of the window, a box exactly those whose interval covers it; the window lies d2..d1 before (minus) resp. d1..d2 after (plus) the evaluation time; 'now' resolves to the evaluation time; intervalContains(a,b) is a.start <= b.start && b.end <= a.end with -inf/+inf; an annotation with unbound variables enumerates every stored interval of a matching atom and binds both ends; a concrete annotation matches facts covering it and never disjoint ones", 6)
 	c.Rule(rC14Bind, "bindIntervalVariables unifies the start variable with the fact's start time and the end variable with its end time", 1)
 	c.Rule(rC14Head, "ResolveHeadTime maps timestamp, now, -inf/+inf and variables bound to number or time constants to the start and end of the result in that order, and fails on an unbound variable", 1)
@@ -232,67 +231,100 @@ func b2i(b bool) int {
 }
 
 func c14Dispatch(c *core.Ctx) {
+	// decided by evaluation: EvalTemporalLiteral is run with the five evaluators replaced by recorders
 	f := c.MustFunc(rC14Disp, "engine", "TemporalEvaluator.EvalTemporalLiteral")
 	if f == nil {
 		return
 	}
-	info := f.Pkg.TypesInfo
-	want := map[string]string{"DiamondMinus": "engine.TemporalEvaluator.evalDiamondMinus", "BoxMinus": "engine.TemporalEvaluator.evalBoxMinus",
-		"DiamondPlus": "engine.TemporalEvaluator.evalDiamondPlus", "BoxPlus": "engine.TemporalEvaluator.evalBoxPlus"}
-	var sw *ast.SwitchStmt
-	ast.Inspect(f.Decl.Body, func(n ast.Node) bool {
-		if s, ok := n.(*ast.SwitchStmt); ok && s.Tag != nil && core.FieldSel(info, s.Tag) == "TemporalOperator.Type" {
-			sw = s
-		}
-		return true
-	})
-	if sw == nil {
-		c.Unres(rC14Disp, f.Name, f.Decl.Pos(), "no switch over TemporalOperator.Type found")
-		return
+	k := &astKit{c: c, ok: true}
+	in := ordabs.New(c.Prog)
+	in.Stubs["functional.EvalAtom"] = func(in *ordabs.Interp, _ ordabs.Value, a []ordabs.Value) ([]ordabs.Value, error) {
+		return []ordabs.Value{a[0], nil}, nil
 	}
-	seen := map[string]bool{}
-	for _, cs := range sw.Body.List {
-		cc := cs.(*ast.CaseClause)
-		if cc.List == nil {
-			errRet := false
-			for _, st := range cc.Body {
-				if r, ok := st.(*ast.ReturnStmt); ok && len(r.Results) == 2 && !core.IsNilIdent(info, r.Results[1]) {
-					errRet = true
+	var called []string
+	rec := func(name string, nargs int) {
+		in.Stubs["engine.TemporalEvaluator."+name] = func(in *ordabs.Interp, _ ordabs.Value, a []ordabs.Value) ([]ordabs.Value, error) {
+			desc := name
+			for _, x := range a {
+				switch v := x.(type) {
+				case *ordabs.Rec:
+					if id, ok := v.Fields["__id"]; ok {
+						desc += " " + fmt.Sprint(id)
+					}
+				case *ordabs.Obj:
+					if v != nil {
+						if id, ok := v.Fields["__id"]; ok {
+							desc += " " + fmt.Sprint(id)
+						}
+					}
 				}
 			}
-			c.Check(errRet, rC14Disp, f.Name+":default", cc.Pos(), "an unknown operator kind is an error", "the default case does not return an error: an unknown operator kind would evaluate to no solutions silently")
-			seen["default"] = true
+			called = append(called, desc)
+			return []ordabs.Value{(*ordabs.Slice)(nil), nil}, nil
+		}
+	}
+	for _, n := range []string{"evalDiamondMinus", "evalBoxMinus", "evalDiamondPlus", "evalBoxPlus", "evalTemporalAtomWithoutOperator"} {
+		rec(n, 4)
+	}
+	te := &ordabs.Obj{Name: "te", Fields: map[string]ordabs.Value{}, T: "engine.TemporalEvaluator"}
+	subst := &ordabs.Rec{Fields: map[string]ordabs.Value{}, T: "unionfind.UnionFind"}
+	mk := func(opKind string) (*ordabs.Rec, bool) {
+		tl := k.tl(k.atom("q", 1), opKind != "", true)
+		if iv, _ := tl.Fields["Interval"].(*ordabs.Obj); iv != nil {
+			iv.Fields["__id"] = "annotation"
+		}
+		if opKind != "" {
+			v, ok := constInt(c.Prog, "ast", opKind)
+			if !ok {
+				return nil, false
+			}
+			op, _ := tl.Fields["Operator"].(*ordabs.Obj)
+			if op == nil {
+				return nil, false
+			}
+			op.Fields["Type"] = v
+			if w, _ := op.Fields["Interval"].(*ordabs.Rec); w != nil {
+				w.Fields["__id"] = "window"
+			}
+		}
+		return tl, true
+	}
+	want := map[string]string{"DiamondMinus": "evalDiamondMinus", "BoxMinus": "evalBoxMinus", "DiamondPlus": "evalDiamondPlus", "BoxPlus": "evalBoxPlus", "": "evalTemporalAtomWithoutOperator"}
+	for _, kind := range []string{"DiamondMinus", "BoxMinus", "DiamondPlus", "BoxPlus", ""} {
+		label := kind
+		if label == "" {
+			label = "no-operator"
+		}
+		tl, ok := mk(kind)
+		if !ok || !k.ok {
+			c.Unres(rC14Disp, f.Name+":"+label, f.Decl.Pos(), "anchor-unresolved: operator kind ast.%s / temporal literal fields", kind)
 			continue
 		}
-		for _, e := range cc.List {
-			name := ""
-			if sel, ok := ast.Unparen(e).(*ast.SelectorExpr); ok {
-				name = sel.Sel.Name
-			} else if id, ok := ast.Unparen(e).(*ast.Ident); ok {
-				name = id.Name
-			}
-			w, known := want[name]
-			if !known {
-				continue
-			}
-			seen[name] = true
-			calls := core.FindCalls(info, cc, false, w)
-			other := ""
-			for n2, w2 := range want {
-				if n2 != name && core.ContainsCall(info, cc, false, w2) {
-					other = w2
-				}
-			}
-			c.Check(len(calls) == 1 && other == "", rC14Disp, f.Name+":"+name, cc.Pos(), "dispatches to "+w, fmt.Sprintf("case %s must call %s (found %d such calls, other evaluator called: %q)", name, w, len(calls), other))
+		called = nil
+		in.Reset()
+		out, err := in.Call(f, te, []ordabs.Value{tl, subst})
+		if !runORD(c, rC14Disp, f.Name+":"+label, f, err) {
+			continue
 		}
-	}
-	for name := range want {
-		if !seen[name] {
-			c.Bad(rC14Disp, f.Name+":"+name, sw.Pos(), "operator kind %s has no case: literals with this operator fall to the default", name)
+		got := strings.Join(called, "; ")
+		wantCall := want[kind]
+		if kind != "" {
+			wantCall += " window annotation"
+		} else {
+			wantCall += " annotation"
 		}
+		c.Check(got == wantCall && out[1] == nil, rC14Disp, f.Name+":"+label, f.Decl.Pos(), "evaluated by "+want[kind]+" with the operator window and the annotation", fmt.Sprintf("a literal with operator kind %q is evaluated by [%s], want [%s]", kind, got, wantCall))
 	}
-	if !seen["default"] {
-		c.Bad(rC14Disp, f.Name+":default", sw.Pos(), "no default case: an unknown operator kind returns (nil, nil)")
+	// an operator kind that does not exist is an error, not an empty answer
+	if tl, ok := mk("DiamondMinus"); ok && k.ok {
+		tl.Fields["Operator"].(*ordabs.Obj).Fields["Type"] = int64(99)
+		called = nil
+		in.Reset()
+		out, err := in.Call(f, te, []ordabs.Value{tl, subst})
+		if runORD(c, rC14Disp, f.Name+":default", f, err) {
+			_, isErr := out[1].(ordabs.ErrVal)
+			c.Check(isErr && len(called) == 0, rC14Disp, f.Name+":default", f.Decl.Pos(), "an unknown operator kind is an error", "an unknown operator kind does not produce an error: such a literal would evaluate to no solutions silently")
+		}
 	}
 }
 
